@@ -8,8 +8,9 @@
                         (transcribed from strconv.readFloat, including the exponent accumulator that stops growing
                         at 10000), and fails with ErrRange — so the caster falls through to ParseBool / text — when
                         the decimal value is >= 2^1024 - 2^970 in magnitude.
-   The numeric result is carried as the EXACT decimal value q of the literal; the float64 is the binary64 nearest
-   to q (strconv's correctly rounded conversion is trusted, the harness checks |q - f| <= ulp/2).
+   The numeric result is carried as the EXACT decimal value q of the literal (0 when the literal is nonzero but
+   below 10^-400, where the float64 is +-0 anyway); the float64 is the binary64 nearest to q (strconv's correctly
+   rounded conversion is trusted; the correspondence checks |q - f| <= f * 2^-52).
 
    go_fmt_v x = Some s: only for integer magnitudes below 2^53 (exactly representable; shortest digits = the
    integer's digits without trailing zeros), +-Inf and NaN; '%v' = strconv 'g' with shortest precision:
@@ -130,8 +131,14 @@ Definition go_cast (s : string) : option tag :=
   else
     match parse_dec cs with
     | Some (neg, m, dexp) =>
-      let q := dec_value m dexp in
-      if overflows q then Some (bool_or_text s) else Some (TNum (Fin neg (Qred q)))
+      if (m =? 0)%Z then Some (TNum (Fin neg 0))
+      else if (400 <? dexp)%Z then Some (bool_or_text s)        (* |value| >= 10^401: ErrRange *)
+      else if (dexp <? -400 - Z.of_nat (List.length cs))%Z
+      then Some (TNum (Fin neg 0))                              (* |value| < 10^-400: the float64 is +-0; the
+                                                                   exact value is not computed (too large a power) *)
+      else
+        let q := dec_value m dexp in
+        if overflows q then Some (bool_or_text s) else Some (TNum (Fin neg (Qred q)))
     | None => Some (bool_or_text s)
     end.
 
